@@ -245,7 +245,7 @@ def run(rep, tier, seed, model_ok=True, effort=1):
     # the line carrying the literal text is rewritten, a near-miss line stays as it is
     from . import project
     nupd = (25 if tier == "quick" else 1500) * effort
-    fixed = [(l_, c_) for l_ in ("100%", "a%20b", "50%%", "x|y", "(c)", "a.b*") for c_ in (False, True)]
+    fixed = [(l_, c_) for l_ in ("100%", "a%20b", "50%%", "x|y", "(c)", "a.b*", "stable # note", "a ; b") for c_ in (False, True)]
     for k_ in range(nupd + len(fixed)):
         if k_ < len(fixed):
             lit, cfg_style = fixed[k_]
@@ -256,7 +256,7 @@ def run(rep, tier, seed, model_ok=True, effort=1):
         # unmodelled) toml reader, not bumpver
         if known_class(lit) or lit[-1:].isdigit() or lit.strip() != lit or any(c in lit for c in "{}^$,\"'\\"):
             continue
-        if cfg_style and (lit[:1] in "#;[" or "=" in lit or ":" in lit or " #" in lit or " ;" in lit):
+        if cfg_style and (lit[:1] in "#;[" or "=" in lit or ":" in lit):
             continue   # ini syntax of its own: comment prefixes, key delimiters
         text = literal_text(lit)[0]
         miss = next((m_ for m_ in near_misses(r, text) + case_flips(text) if text not in m_ and m_.strip() == m_), None)
